@@ -105,6 +105,35 @@ pub fn any_class<const N: usize, const B: usize, S: Src>(s: &mut S) {
     pv_check!(s, got == exp, "PV: allows() accepts iff every code point is valid in context, else reports the first offender (code point, character position, property)");
 }
 
+/// User-supplied class (values = ANY function of the characters) with the REAL registry shape and each rule replaced by
+/// its RFC 5892 specification on the character array (S-RULESPEC): cheap, and every counterexample exists on the
+/// real code (rule == specification is C03), so it replays natively.  Labels never contain U+200C (ZWNJ is C03's).
+pub fn any_class_rulespec<const N: usize, const B: usize, S: Src>(s: &mut S) {
+    let x = SymStr::<N>::any(s);
+    let mut buf = SBuf::<B>::new();
+    x.fill(&mut buf);
+    let mut vals = [0u8; N];
+    let mut i = 0;
+    while i < N {
+        vals[i] = s.below(7) as u8;
+        s.assume(x.cs[i] as u32 != 0x200c);
+        unsafe {
+            super::stubs::ANY_CS[i] = x.cs[i] as u32;
+        }
+        i += 1;
+    }
+    unsafe {
+        super::stubs::ANY_N = x.n;
+    }
+    let class = AnyClass::<N> { cs: x.cs, vals };
+    pv_note!(s, "user class with values {:?} on label {:?}", vals, buf.as_str());
+    let got = class.allows(buf.as_str());
+    let exp = spec::<N>(buf.as_str(), &x, |c| class.get_value_from_char(c));
+    pv_cover!(s, x.n == N && exp.is_ok() && vals[N - 1] >= 3 && x.cs[N - 1] as u32 == 0x200d, "COVER: accepted label ending in ZWJ");
+    pv_cover!(s, matches!(exp, Err(Error::BadCodepoint(ref i)) if i.position == N - 1 && i.cp == 0x200d), "COVER: ZWJ rejected at the last position");
+    pv_check!(s, got == exp, "PV: allows() with the real rule registry: accepts iff every code point is valid in context, else the first offender");
+}
+
 pub fn std_class<const N: usize, const B: usize, S: Src>(s: &mut S) {
     let x = SymStr::<N>::any(s);
     let mut buf = SBuf::<B>::new();
